@@ -1128,12 +1128,25 @@ func eq(lhs, rhs reflect.Value) bool {
 		return reflect.DeepEqual(lhs.Interface(), rhs.Interface())
 	}
 
-	// All other types (e.g. functions) are
-	// compared directly. Two functions with the same contents
-	// are not considered equal unless they're the same
-	// physical object in memory.
+	// All other types (e.g. null and functions) are compared
+	// by identity. Two functions with the same contents are
+	// not considered equal unless they're the same physical
+	// object in memory. Values held in an interface (e.g.
+	// array members) are unwrapped first so that null equals
+	// null and a function equals itself wherever they appear.
+	lhs, rhs = unwrapInterface(lhs), unwrapInterface(rhs)
+	if lhs.Kind() == reflect.Ptr && rhs.Kind() == reflect.Ptr {
+		return lhs.Type() == rhs.Type() && lhs.Pointer() == rhs.Pointer()
+	}
 
 	return lhs == rhs
+}
+
+func unwrapInterface(v reflect.Value) reflect.Value {
+	for v.Kind() == reflect.Interface && !v.IsNil() {
+		v = v.Elem()
+	}
+	return v
 }
 
 func lt(lhs, rhs reflect.Value) bool {
@@ -1158,10 +1171,6 @@ func lte(lhs, rhs reflect.Value) bool {
 }
 
 func in(lhs, rhs reflect.Value) bool {
-	// TODO: Does not work with null, e.g.
-	//    null in null    // evaluates to false
-	//    null in [null]  // evaluates to false
-
 	rhs = arrayify(rhs)
 
 	for i, N := 0, rhs.Len(); i < N; i++ {
